@@ -7,6 +7,7 @@ import GoagModel.Dir
 import GoagModel.JsonModel
 import GoagModel.Naming
 import GoagModel.Resp
+import GoagModel.Alias
 /-
   Line-protocol driver: one tab-separated request per line on stdin, one answer line on
   stdout.  The first field selects the model function.  Imports only executable model
@@ -206,6 +207,20 @@ def handle (st : State) (fields : List String) : IO (State × String) := do
       match res with
       | .ok r => pure (st, s!"{id}\t{r}")
       | .error e => pure (st, s!"{id}\tunmodelled:{e}")
+  | ["aliascheck", id, h] =>
+    -- h: hex of "name>target;name=;..." (alias / definition entries in goag's sorted key order)
+    match fromHex h with
+    | none => pure (st, s!"{id}\tbad-input")
+    | some txt =>
+      let m : Alias.CMap := (txt.splitOn ";").filterMap (fun e =>
+        if e == "" then none else
+        match e.splitOn ">" with
+        | [n, t] => some (n, some t)
+        | _ => match e.splitOn "=" with
+          | [n, _] => some (n, none)
+          | _ => none)
+      let v := match Alias.check m with | .ok _ => "ok" | .error e => e
+      pure (st, s!"{id}\t{v}")
   | ["names", id, h] =>
     match fromHex h with
     | none => pure (st, s!"{id}\tbad-input")
